@@ -199,6 +199,10 @@ pub fn holder_cred(fmt: Fmt) -> Option<Cred> {
 }
 
 pub fn run_holder_seq(cred: &Cred, alpha: &[HoldOp], seq: &[usize], l: &mut Local) {
+    run_holder_seq_on(cred, alpha, seq, "flat", l)
+}
+
+pub fn run_holder_seq_on(cred: &Cred, alpha: &[HoldOp], seq: &[usize], which: &str, l: &mut Local) {
     l.evals += 1;
     l.traces += 1;
     l.transitions += seq.len() as u64;
@@ -219,6 +223,7 @@ pub fn run_holder_seq(cred: &Cred, alpha: &[HoldOp], seq: &[usize], l: &mut Loca
         let mk = |class: &str, site: &str, detail: String| {
             let mut case = seq_case("c11_holder", &names);
             case["fmt"] = json!(fmt.name());
+            case["credential"] = json!(which);
             Violation::new("present", class, format!("{}:{site}", op.name), hist, format!("call {} of the history: {detail}", k + 1), case)
         };
         // differential reference: the same call on a fresh holder of the same SD-JWT
@@ -274,6 +279,25 @@ pub fn run_holder_seq(cred: &Cred, alpha: &[HoldOp], seq: &[usize], l: &mut Loca
             o => l.violation(mk(if o.is_panic() { "panic" } else { "err_where_ok_required" }, &format!("verify:{}", o.site()), o.describe())),
         }
     }
+}
+
+/// A credential nested six levels deep and operations that succeed / fail at depth: state that a failing
+/// call leaves behind deep inside the selection walk must not affect later calls.
+pub fn deep_claims() -> Value {
+    json!({"iss": gen::ISS, "exp": gen::EXP, "a": {"b": {"c": [{"d": {"e": {"f": 1, "g": 2}}}]}}, "h": 3})
+}
+pub fn deep_holder_alphabet() -> Vec<HoldOp> {
+    vec![
+        HoldOp { name: "deep_all", sel: gen::select_all(&deep_claims()), kb: 0, fails: false },
+        HoldOp { name: "deep_fail_unknown_at_depth_6", sel: obj(json!({"a": {"b": {"c": [{"d": {"e": {"zz": true}}}]}}})), kb: 0, fails: true },
+        HoldOp { name: "deep_partial_kb", sel: obj(json!({"a": {"b": {"c": [{"d": {"e": {"g": true}}}]}}})), kb: 1, fails: false },
+        HoldOp { name: "deep_fail_unknown_object_at_depth_4", sel: obj(json!({"a": {"b": {"c": [{"zz": {"q": true}}]}}})), kb: 0, fails: true },
+        HoldOp { name: "shallow", sel: obj(json!({"h": true})), kb: 0, fails: false },
+    ]
+}
+pub fn deep_holder_cred(fmt: Fmt) -> Option<Cred> {
+    let mut l = Local::default();
+    pipeline::issue_checked(&deep_claims(), &Strat::All, &Cfg { fmt, alg: Alg::HS256, decoys: false, hk: Hk::Es }, Checks::default(), "C11", &mut l)
 }
 
 fn sequences(n_ops: usize, max_len: usize) -> Vec<Vec<usize>> {
@@ -337,6 +361,13 @@ pub fn run(rep: &Report) {
         });
         rep.scope_done(json!({"scope": format!("holder ({}): every sequence of length {}..8 over a {}-operation core", fmt.name(), full_len + 1, hcore.len()), "sequences": hl.len()}));
         rep.sample(json!({"instance": format!("holder({})", fmt.name()), "sequence": hs[hs.len() / 3].iter().map(|i| ha[*i].name).collect::<Vec<_>>()}));
+        // deep credential: failures deep inside the selection walk, then valid calls
+        if let Some(dc) = deep_holder_cred(fmt) {
+            let da = deep_holder_alphabet();
+            let dl = sequences(da.len(), if quick { 6 } else { 8 });
+            par_for(rep, dl.len(), |i, l| run_holder_seq_on(&dc, &da, &dl[i], "deep", l));
+            rep.scope_done(json!({"scope": format!("holder ({}) of a credential nested 6 levels: every sequence of length <= {} over 5 operations (3 succeeding, 2 failing at depth 6 / 4)", fmt.name(), if quick { 6 } else { 8 }), "sequences": dl.len()}));
+        }
     }
     if rep.outcome_count("step_ok") == 0 || rep.outcome_count("failing_call_failed") == 0 {
         rep.machinery_error("vacuity: C11 saw no successful or no failing step".into());
@@ -351,6 +382,14 @@ pub fn replay(case: &Value) -> Vec<Violation> {
             let ia = issuer_alphabet();
             let seq: Vec<usize> = names.iter().filter_map(|n| ia.iter().position(|o| o.name == n)).collect();
             run_issuer_seq(&ia, &seq, Alg::from_name(case["alg"].as_str().unwrap_or("HS256")), &mut l);
+        }
+        "c11_holder" if case["credential"] == "deep" => {
+            let da = deep_holder_alphabet();
+            let seq: Vec<usize> = names.iter().filter_map(|n| da.iter().position(|o| o.name == n)).collect();
+            let fmt = if case["fmt"] == "json" { Fmt::Json } else { Fmt::Compact };
+            if let Some(cred) = deep_holder_cred(fmt) {
+                run_holder_seq_on(&cred, &da, &seq, "deep", &mut l);
+            }
         }
         "c11_holder" => {
             let ha = holder_alphabet();
